@@ -43,6 +43,29 @@ def _chunk(args):
                     out['failures'].append({'clause': clause, 'input': {'logits': lg, 'k': k, 'pruning_selector': pruning}, 'observed': detail})
         if len(out['samples']) < 2 and len(lg) == 2:
             out['samples'].append({'logits': lg, 'k': ks[0]})
+    # ONE long-lived decoder (as PageDecoder keeps it): it first decodes lines that begin with blank-only frames (every symbol
+    # below the pruning threshold: the shortcut branch of the frame loop), then the matrices of this shard; every result is held to
+    # the same clauses as with a fresh decoder
+    three = [lg for lg in mats if len(lg[0]) == 3 and len(lg) >= 2][:3]
+    if three:
+        lead = [[-14.0, -14.0, -1.7e-6]] * 2
+        for k in ks:
+            for pruning in modes:
+                kw = {} if pruning else {'relevant_logits_selector': _ctc.identity_selector(np)}
+                dec = D.CTCPrefixLogRawNumpyDecoder(_ctc.LETTERS2, k=k, **kw)
+                hist = []
+                for lg in three:
+                    m_ = lead + [list(r) for r in lg]
+                    for cur in (m_, lg):
+                        out['evaluations'] += 1
+                        hist.append(cur)
+                        try:
+                            bad = _ctc.check_c02(np, D, cur, k, pruning, dec=dec)
+                        except Exception as e:
+                            bad = [('no-exception', 'raised %r' % (e,))]
+                        for clause, detail in bad:
+                            out['failures'].append({'clause': clause, 'input': {'history': list(hist), 'logits': cur, 'k': k, 'pruning_selector': pruning},
+                                                    'observed': 'call #%d of one decoder: %s' % (len(hist), detail)})
     return out
 
 
@@ -148,7 +171,13 @@ def replay(entry):
         bad = _ctc.check_guard(np, D)
     else:
         lg = [[float(x) for x in r] for r in inp['logits']]
-        bad = _ctc.check_c02(np, D, lg, inp['k'], inp['pruning_selector'])
+        dec = None
+        if inp.get('history'):
+            kw = {} if inp['pruning_selector'] else {'relevant_logits_selector': _ctc.identity_selector(np)}
+            dec = D.CTCPrefixLogRawNumpyDecoder(_ctc.LETTERS2, k=inp['k'], **kw)
+            for m_ in inp['history'][:-1]:
+                dec(np.asarray(m_, dtype=float))
+        bad = _ctc.check_c02(np, D, lg, inp['k'], inp['pruning_selector'], dec=dec)
     for b in bad:
         print('REPLAY-FAIL', b)
     print('replay: %d problem(s)' % len(bad))
